@@ -199,8 +199,27 @@ func rulesC11(c *Ctx) {
 									okOwner = true
 									// ... whenever the request carries token info: nothing but the presence test stands in front of it (an owner
 									// recorded only for, say, tokens with an expiration leaves the other sessions open to every user)
-									if nl, what := g.semanticLeaves(g.VertexOf(w2.Stmt)); nl > 0 {
-										c.Fail(key+":owner-captured-for-every-authenticated-creator", f, w2.Stmt, "the owner is recorded under a condition beyond the presence of token info (%s)", what)
+									// (conditions that guard the insertion into the table as well are the conditions of creating a
+									// session at all, not of recording its owner)
+									ins := map[string]bool{}
+									for _, a := range g.GuardsAt(wv) {
+										ins[a.String()] = true
+									}
+									extra := ""
+									for _, a := range g.GuardsAt(g.VertexOf(w2.Stmt)) {
+										if ins[a.String()] || isCompound(a.E) {
+											continue
+										}
+										if u, isU := a.E.(*ast.UnaryExpr); isU && u.Op == token.NOT {
+											continue
+										}
+										if _, _, isNil := NilTest(a.E); isNil {
+											continue
+										}
+										extra = a.String()
+									}
+									if extra != "" {
+										c.Fail(key+":owner-captured-for-every-authenticated-creator", f, w2.Stmt, "the owner is recorded under a condition beyond the presence of token info (%s)", extra)
 									}
 								}
 							}
